@@ -157,10 +157,12 @@ RestoreRemoves(id, dir) ==
   ELSE SideFiles(S(id)) \cap dir
 \* the close of a database of the temporary directory (the database is a temporary file: it goes too)
 CloseOwn(p) == {Name(p), WalName(p), ShmName(p), JrnName(p)}
+\* (closing the last connection, SQLite itself removes the -wal and -shm it computed by concatenation; then the library)
 CloseRemoves(id, dir) ==
-  IF "CloseByGlob" \in PDev
-  THEN {f \in dir : Match(Name(S(id)) \o <<"*">>, f)}
-  ELSE CloseOwn(S(id)) \cap dir
+  (SideFiles(S(id)) \cap dir) \cup
+  (IF "CloseByGlob" \in PDev
+   THEN {f \in dir : Match(Name(S(id)) \o <<"*">>, f)}
+   ELSE CloseOwn(S(id)) \cap dir)
 
 VARIABLES id, step, dir, gone
 pvars == <<id, step, dir, gone>>
@@ -186,7 +188,7 @@ RECURSIVE SetToSeq(_)
 SetToSeq(T) == IF T = {} THEN <<>> ELSE LET x == CHOOSE y \in T : TRUE IN <<x>> \o SetToSeq(T \ {x})
 JoinAll(T) == LET q == SetToSeq(T) IN [i \in DOMAIN q |-> Join(q[i])]
 \* what today's close_db_conn (name "*" read as a pattern) would remove in the temporary directory
-GlobClose(i) == {f \in DirBefore(i) : Match(Name(S(i)) \o <<"*">>, f)}
+GlobClose(i) == (SideFiles(S(i)) \cap DirBefore(i)) \cup {f \in DirBefore(i) : Match(Name(S(i)) \o <<"*">>, f)}
 GlobRestore(i) == {f \in DirBefore(i) : Match(Name(S(i)) \o <<"-", "*">>, f)}
 Emit ==
   step = "start" =>
